@@ -46,8 +46,10 @@ SPEC = dict(
         "confirmed through xv::parse_xerces on a single-instance document",
         "A reference to an externally declared entity under standalone='yes' is both a VC and a WFC violation: either an error or a fatal error is accepted",
         "Proper Declaration/PE Nesting violated by a PE reference between declarations is also WFC 'PE Between Declarations': error or fatal accepted",
-        "KNOWN_DEFECTS (driver, ids KD1..KD7; docs/c07.md): cases explained exactly by a reported library defect are skipped and counted as "
-        "known_defect_skipped:<id>; run the driver with --strict 1 to see them fail",
+        "KNOWN_DEFECTS (driver, ids KD1..KD7; docs/c07.md): run 'witness' executes one minimal witness per defect strictly and reports each one still "
+        "present as a violation of kind defect:<slug> (-> KNOWN-FINDING via known_findings.json). In the other spaces the cases explained exactly by a "
+        "defect whose witness still fails are skipped and counted as known_defect_skipped:<id>; a witness that passes (probed at the start of every "
+        "run) switches that tolerance off; --strict 1 disables all tolerance",
         "Cuts w.r.t. DESIGN C07: single-child parentheses only at top level and only for <= 2 leaves; canonical naming for >= 3 leaves; the 8-token child alphabet "
         "only for <= 2-leaf models (3/4-leaf models: element tokens only, since text/white space/comment/PI handling depends only on the content type, "
         "see IGXMLScanner::sendCharData); 4-leaf trees limited to <= 2 non-empty suffixes; no random valid-by-construction instances (everything is enumerated)",
@@ -66,10 +68,13 @@ SPEC = dict(
         "parses": _sum(rs, "parses") + _sum(rs, "parses_batch") + _sum(rs, "single_reruns"),
         "onoff_dump_compared": _sum(rs, "onoff_dump_compared"),
         "placement_dump_compared": _sum(rs, "placement_dump_compared"),
+        "witness_defects_present": _sum(rs, "witness_defect_present"),
+        "witness_defects_absent": _sum(rs, "witness_defect_absent"),
         "known_defect_skipped": sum(v for r in rs for k, v in r.get("counters", {}).items() if k.startswith("known_defect_skipped")),
     },
     runs=dict(
         quick=[
+            dict(name="witness", driver=D, args=["--space", "witness"], workers=2),
             _cm("cm-le2leaves-8tok-k3", "--maxleaves", 2, "--k", 3, "--alpha", 8),
             _cm("cm-le2leaves-elem-k4", "--specials", 0, "--maxleaves", 2, "--k", 4, "--alpha", 4, "--cfgmask", "0x99"),
             _cm("cm-3leaves-abc-k4", "--specials", 0, "--minleaves", 3, "--maxleaves", 3, "--wrap", 0, "--k", 4, "--alpha", 3, "--cfgmask", "0x21",
@@ -81,6 +86,7 @@ SPEC = dict(
             dict(name="place-le2leaves-k2", driver=D, args=["--space", "place", "--maxleaves", 2, "--k", 2, "--cfgmask", "0x81"]),
         ],
         thorough=[
+            dict(name="witness", driver=D, args=["--space", "witness"], workers=2),
             # deadlines are safety caps (sum ~ 23 min); measured CPU cost of the whole tier ~ 6 000 core-seconds under heavy load
             _cm("cm-le2leaves-allnames-8tok-k3", "--maxleaves", 2, "--k", 3, "--alpha", 8, "--naming", "all", "--deadline", 130),
             _cm("cm-le2leaves-8tok-k4", "--maxleaves", 2, "--k", 4, "--alpha", 8, "--cfgmask", "0x99", "--deadline", 220),
